@@ -30,7 +30,7 @@ def dispatch (st : DSt) (line : String) : DSt × String :=
       let (p, out) := Proto3D.step st.proto3 toks; ({ st with proto3 := p }, out)
     else if t.startsWith "s." || t.startsWith "j." then
       let (p, out) := StoresD.step st.stores toks; ({ st with stores := p }, out)
-    else if t.startsWith "a." then
+    else if t.startsWith "a." || t.startsWith "t." then
       let (p, out) := ClientsD.step st.clients toks; ({ st with clients := p }, out)
     else if t == "ping" then (st, "pong")
     else (st, "bad-op")
